@@ -208,4 +208,19 @@ theorem loc_no_inputs {E : Env} {dev : Bool} {Γ : Path → List (Dir × Digest)
   · intro scms v bo hs cs _ h; rw [hi] at h; cases h
   · exact hscm
 
+/-- the invariant does not mention the junk content -/
+theorem loc_junk {E : Env} {dev : Bool} {Γ : Path → List (Dir × Digest)} {st : St} {p : Path} (j : Content) :
+    Loc { E with junk := j } dev Γ st p ↔ Loc E dev Γ st p := by
+  constructor
+  · intro h
+    exact ⟨h.nodisk, h.res, h.nofp, h.bld, h.pkg, h.co, h.scm⟩
+  · intro h
+    exact ⟨h.nodisk, h.res, h.nofp, h.bld, h.pkg, h.co, h.scm⟩
+
+theorem truthful_junk {E : Env} {dev : Bool} {Γ : Path → List (Dir × Digest)} {st : St} (j : Content) :
+    Truthful { E with junk := j } dev Γ st ↔ Truthful E dev Γ st := by
+  constructor
+  · intro h p; exact (loc_junk j).mp (h p)
+  · intro h p; exact (loc_junk j).mpr (h p)
+
 end Builder
